@@ -878,8 +878,10 @@ func runC01(c *Ctx) {
 			}
 		}
 	}
-	// 8. wide objects around the namespace representation switch (>64 names or >1024 name bytes)
-	nwide := c.N(60, 3000)
+	// 8. wide objects around the namespace representation switch (>64 names or >1024 name bytes), with and without a
+	// (respelled) duplicate, and the SAME duplicate-free object again as a sibling (array element, member value, next
+	// top-level value, nested one level deeper): a namespace slot is reused and must start empty
+	nwide := c.N(160, 3000)
 	for k := 0; k < nwide; k += 10 {
 		addJob(func(w *c01Worker, r *rand.Rand) {
 			for i := 0; i < 10; i++ {
@@ -889,25 +891,48 @@ func runC01(c *Ctx) {
 					n, nameLen = 60+r.IntN(11), 3+r.IntN(6)
 				case 1:
 					n, nameLen = 120+r.IntN(21), 3+r.IntN(6)
-				case 2: // few names, > 1024 name bytes
-					n = 8 + r.IntN(30)
-					nameLen = (950 + r.IntN(200)) / n
+				case 2: // few names, around and above 1024 name bytes
+					n = 3 + r.IntN(35)
+					nameLen = (900 + r.IntN(600)) / n
 				default:
 					n, nameLen = 1+r.IntN(70), 1+r.IntN(40)
 				}
-				dupAt := -1
-				switch r.IntN(4) {
+				t0 := gjWideObject(r, n, nameLen, -1, false)
+				w.add(t0, "wide-object")
+				cat := func(parts ...string) []byte {
+					var o []byte
+					for _, p := range parts {
+						if p == "@" {
+							o = append(o, t0...)
+						} else {
+							o = append(o, p...)
+						}
+					}
+					return o
+				}
+				switch r.IntN(5) {
 				case 0:
-					dupAt = r.IntN(n)
+					w.add(cat("[", "@", ",", "@", "]"), "wide-object-siblings")
+				case 1:
+					w.add(cat("@", " ", "@"), "wide-object-siblings")
+				case 2:
+					w.add(cat(`{"a":`, "@", `,"b":`, "@", "}"), "wide-object-siblings")
+				case 3:
+					w.add(cat("[[", "@", "],{\"x\":", "@", "}]"), "wide-object-siblings")
+				default:
+					w.add(cat("[", "@", ",", `{"0_":1}`, ",", "@", ",", "@", "]"), "wide-object-siblings")
+				}
+				dupAt := r.IntN(n)
+				switch r.IntN(3) {
 				case 1:
 					dupAt = n - 1 - r.IntN(min(n, 3))
 				case 2:
 					dupAt = r.IntN(min(n, 3))
 				}
 				t := gjWideObject(r, n, nameLen, dupAt, r.IntN(2) == 0)
-				w.add(t, "wide-object")
+				w.add(t, "wide-object-dup")
 				if r.IntN(3) == 0 {
-					w.add(append(append([]byte(`[1,`), t...), ']'), "wide-object")
+					w.add(append(append([]byte(`[1,`), t...), ']'), "wide-object-dup")
 				}
 			}
 		})
